@@ -69,17 +69,23 @@ Proof. exact rt_shifts_modular_partial. Qed.
 Print Assumptions C02_rt_is_modular_shifts_partial.
 
 (* rt_bin / rt_bin_k is the value of an operator result once STORED (or passed); rt_nested_l is its
-   value when consumed directly by another operator; k1 says whether the inner right operand is a
-   compile-time constant (the emitter then takes its shift fast paths).  Since 1d3f0fa / 8eb30df /
-   3d9c769 every result narrower than C int is cast to its type and the two coincide: every
-   non-comparison inner operator, every outer operator, all types, ALL values, run-time and
-   compile-time counts (ProofsNested.rt_context_independent, full strength).  The proof goes through
-   the cast conditions scraped from the emitter on this run (Gen.binop_casts_subint,
-   Gen.tdiv_mixed_casts_back, Gen.shl_fast_casts_unsigned_subint): reverting any of the three
-   commits breaks it. *)
+   value when consumed directly by another operator; k1 says that the inner right operand is a
+   compile-time constant and is considered for the shifts only (the only operators whose emitted
+   form depends on it).  Since 1d3f0fa / 8eb30df / 3d9c769 every result narrower than C int is cast
+   to its type and the two coincide: every non-comparison inner operator, every outer operator, all
+   types, ALL values (ProofsNested.rt_context_independent = rt_context_independent_p gen_policy,
+   full strength for the model).  gen_policy is read from the emitter on every run: each condition
+   together with the cast it guards (checks/C02.py:scrape_cast_rules). *)
 Theorem C02_rt_context_independent : rt_context_independent.
 Proof. exact rt_context_independent_holds. Qed.
 Print Assumptions C02_rt_context_independent.
+
+(* the statement depends on that policy for real: under any other policy (one of the three casts
+   missing) it is FALSE - witnesses: the inputs of the three repaired defects - and under this one true *)
+Theorem C02_rt_context_independent_iff_policy : forall p,
+  rt_context_independent_p p <-> (p_binop p = true /\ p_tdiv p = true /\ p_shl p = true).
+Proof. exact rt_context_independent_iff_policy. Qed.
+Print Assumptions C02_rt_context_independent_iff_policy.
 
 (* a compile-time count takes the emitter's fast path (rt_bin_k); it computes what the helper computes:
    checked exhaustively for int8 and uint8 (all values, counts -2 .. 9, << >> >>>); wider types: probes *)
